@@ -12,7 +12,7 @@ PROP = dict(
           "round-tripped through stft/istft. Exhaustive within the bound, silent outside it; nothing is sampled.",
     note="for n above 256 (quick 64) the letter alphabet is a finite witness set (boundary/split impulses, tones, 5 closed-form letters, dense "
          "round trip), not the full matrix; stft/istft windows all have nwin = nfft and nfft is a multiple of 4",
-    rule="a case is a block (check, n[, input form]) / (odd-n block of 32 lengths) / (call history around n) / (nfft, window, overlap, range, method, j, r); evaluations = "
+    rule="a case is a block (check, n[, input form]) / (odd-n block of 32 lengths) / (call history around n) / (stft.history: nfft, overlap, method, window/signal sequence) / (nfft, window, overlap, range, method, j, r); evaluations = "
          "library results compared with the oracle. Non-trivial = block with n >= 2, every irfft/istft block, every call whose expected outcome "
          "is an exception. Plan kinds reached and stft configurations are listed in path_histogram.",
     bounds=dict(
@@ -27,8 +27,12 @@ PROP = dict(
               "ranges x 2 methods x lengths nfft+j*hop+r, j in {0,1,3}, r in {0,1,hop-1}; letters: ramp, dense, every impulse when length <= 96; plus a sparse grid at "
               "nfft in {512, 1024}: periodic hann and blackman, overlap nfft/2 and 3nfft/4 (when iscola accepts), ola and wola, onesided, length "
               "nfft+3*hop+hop-1, ramp + dense. Every sample with reference weight > 16*nseg*eps*max(wmax,1) is judged with a condition-aware "
-              "tolerance (no relative weight threshold). ASan pass: everything forked, n <= 64, nfft in {8,12,16}",
-        thorough="as quick with n <= 2048 (all columns/impulses for n <= 256, dense oracle n <= 1024), odd n in 1..2049, after_reject n <= 2048, stft uses the full grid also for nfft 128, 256, 512, 1024 (no sparse grid); "
+              "tolerance (no relative weight threshold). stft.history: in one thread, all ordered pairs of distinct COLA "
+              "windows from {hann, hamming, blackman, rect, 2*hann} (periodic) written in place into ONE persistent window buffer, plus "
+              "signal-only control pairs, for (nfft, overlap) in {(16,8),(16,12),(64,48),(256,192),(256,128)} x {ola, wola}, length nfft+3*hop+hop-1; "
+              "each round trip passes the istft value oracle and is bit-identical to the same call made first in a fresh thread. "
+              "ASan pass: everything forked, n <= 64, nfft in {8,12,16} (stft.history nfft <= 64)",
+        thorough="as quick with n <= 2048 (all columns/impulses for n <= 256, dense oracle n <= 1024), odd n in 1..2049, after_reject n <= 2048, stft uses the full grid also for nfft 128, 256, 512, 1024 (no sparse grid); stft.history adds (512,256), (1024,768) and all window triples with distinct neighbours; "
                  "ASan pass n <= 256"),
     deadline=dict(quick=150, thorough=1500),
     passes=[dict(name="main"), dict(name="asan", variant="asan", args=["--asan-pass"])],
